@@ -595,6 +595,10 @@ class JSONAttrList(JSONList):
     """A :class:`JSONList` whose dict-like children will be of type :class:`JSONAttrDict`."""
 
     _backend = __name__ + ".attr"  # type: ignore
+    # Dict-like children are attribute-access dicts, so the same key rules apply
+    # to data entering through the list.
+    _validators = (no_dot_in_key,)
+    _all_validators = (json_attr_dict_validator,)
 
 
 class BufferedJSONAttrDict(BufferedJSONDict, AttrDict):
@@ -611,6 +615,10 @@ class BufferedJSONAttrList(BufferedJSONList):
     """A :class:`BufferedJSONList` whose dict-like children will be of type :class:`BufferedJSONAttrDict`."""  # noqa: E501
 
     _backend = __name__ + ".buffered_attr"  # type: ignore
+    # Dict-like children are attribute-access dicts, so the same key rules apply
+    # to data entering through the list.
+    _validators = (no_dot_in_key,)
+    _all_validators = (json_attr_dict_validator,)
 
 
 class MemoryBufferedJSONAttrDict(MemoryBufferedJSONDict, AttrDict):
@@ -627,3 +635,7 @@ class MemoryBufferedJSONAttrList(MemoryBufferedJSONList):
     """A :class:`MemoryBufferedJSONList` whose dict-like children will be of type :class:`MemoryBufferedJSONAttrDict`."""  # noqa: E501
 
     _backend = __name__ + ".memory_buffered_attr"  # type: ignore
+    # Dict-like children are attribute-access dicts, so the same key rules apply
+    # to data entering through the list.
+    _validators = (no_dot_in_key,)
+    _all_validators = (json_attr_dict_validator,)
